@@ -918,6 +918,7 @@ func init() {
 			c.ImportRules("C10")
 			c.DecodeFreshTarget("C11")
 			c.SameStore("C10")
+			c.SyncOption("C03") // the import is synchronous, on disk, and exclusive: the directory lock keeps it away from a live server's store
 			if s := c.Slashing("C10.anchors"); s.OK() {
 				c.EncodeDecodeAgreement("C10", s, s.AttState, map[string]bool{"SourceEpoch": true, "TargetEpoch": true})
 				c.EncodeDecodeAgreement("C10", s, s.PropState, map[string]bool{"Slot": true})
